@@ -1,4 +1,4 @@
-CONSTANTS Depth2 = 4 Depth3 = 2 Depth4 = 1 MaxEntry = 4
+CONSTANTS Depth2 = 4 Depth3 = 2 Depth4 = 1 MaxEntry = 4 X2 = 4 X3 = 1 X4 = 0
 SPECIFICATION Spec
 INVARIANTS Laws Emit
 CHECK_DEADLOCK FALSE
